@@ -92,6 +92,12 @@ Landmarks ==
   [ tenth      |-> [r |-> 0,  whole |-> FALSE, f64 |-> FALSE, n |-> 1, d |-> 10],   \* 0.1 parsed at 512 bits
     third      |-> [r |-> 0,  whole |-> FALSE, f64 |-> FALSE, n |-> 1, d |-> 3],    \* 1/3 at 512 bits
     mtenth     |-> [r |-> 0, whole |-> FALSE, f64 |-> FALSE, n |-> -1, d |-> 10],
+    i16max     |-> [r |-> LMBASE - 100, whole |-> TRUE, f64 |-> TRUE],  \* 32767
+    i16maxp    |-> [r |-> LMBASE - 99, whole |-> TRUE, f64 |-> TRUE],   \* 32768
+    u16max     |-> [r |-> LMBASE - 90, whole |-> TRUE, f64 |-> TRUE],   \* 65535
+    u16maxp    |-> [r |-> LMBASE - 89, whole |-> TRUE, f64 |-> TRUE],   \* 65536
+    i16min     |-> [r |-> -(LMBASE - 99), whole |-> TRUE, f64 |-> TRUE],  \* -32768
+    i16minm    |-> [r |-> -(LMBASE - 98), whole |-> TRUE, f64 |-> TRUE],  \* -32769
     i32max     |-> [r |-> LMBASE + 10, whole |-> TRUE, f64 |-> TRUE],   \* 2^31-1
     i32maxp    |-> [r |-> LMBASE + 11, whole |-> TRUE, f64 |-> TRUE],   \* 2^31
     u32max     |-> [r |-> LMBASE + 20, whole |-> TRUE, f64 |-> TRUE],   \* 2^32-1
